@@ -9,16 +9,29 @@ VecQuick == { <<1,0,0>>, <<0,1,0>>, <<0,0,1>>, <<1,-2,2>>, <<-3,1,2>> }
 (* closed machine: 2O is a group, behaviours of any length stay inside *)
 GenGroup == TwoO
 OneRoute == {"any"}
+NoMethods == {}
+AllMethods == Methods
 
 (* Case emission for the conformance harness: every state of the quick grid with  *)
 (* the exact values the implementation must reproduce.                            *)
 PairCases(S, T) == { [p |-> p, v |-> v, pv |-> Mul(p, v), vp |-> Mul(v, p),
                       Mp |-> M(p), Np |-> Norm2(p)] : p \in S, v \in T }
-EmitPairs(S, T) == ndJsonSerialize(IOEnv.OUT_FILE, SetToSeq(PairCases(S, T)))
+EmitPairs(S, T) == ndJsonSerialize(IOEnv.OUT_FILE, SetToSeq(PairCases(S, T))) /\ (TRUE \/ depth = 0)
 
 GenQuickThin == GenQuick \cup Thin
 GenDeep      == L(2)
 (* postconditions: write the case table the conformance harness replays *)
 EmitQuick == EmitPairs(GenQuickThin, GenQuick)
 EmitDeep  == EmitPairs(GenDeep, GenQuick)
+
+(* ------------------------------- C02 case table ------------------------------- *)
+C02Grid == L(2) \cup Thin
+SetOut(S) == SetToSeq(S)
+MethodCase(u) == LET Rr == MatOf(u) Mn == Rr[1] N == Rr[2] IN
+    [ u |-> u, Mn |-> Mn, N |-> N,
+      shepperd |-> SetOut(Shepperd(Mn, N)), shep_branches |-> SetOut(ShepBranches(Mn)),
+      closed |-> << Dw(Mn, N), Awx(Mn), Awy(Mn), Awz(Mn) >>,
+      hughes |-> SetOut(Hughes(Mn, N)),
+      arms_neg |-> SarArms(Mn, N, -1, 2), arms_zero |-> SarArms(Mn, N, 0, 1), arms_pos |-> SarArms(Mn, N, 1, 2) ]
+EmitC02 == ndJsonSerialize(IOEnv.OUT_FILE, SetToSeq({ MethodCase(u) : u \in C02Grid })) /\ (TRUE \/ depth = 0)
 =============================================================================
